@@ -100,6 +100,14 @@ class Stream:
                 yield text, {'origin': 'mutant', 'what': '+'.join(what),
                              'style': style, 'spec': msp}
             if self.aliases and rng.random() < self.aliases:
+                a2 = D.alias_two_scalars(sp, rng)
+                if a2 is not None:
+                    try:
+                        yield D.render(a2, rng.choice(['block', 'flow'])), {
+                            'origin': 'aliased', 'spec': None}
+                    except (ValueError, RecursionError):
+                        pass
+            if self.aliases and rng.random() < self.aliases:
                 asp, n = D.share_equal_subnodes(sp, rng, 0.8)
                 if n:
                     try:
